@@ -612,10 +612,11 @@ impl Drop for Driver {
         if catch_unwind(AssertUnwindSafe(move || drop(t))).is_err() {
             return; // a guard's destructor panicked (corrupted counter): leak the world
         }
-        unsafe {
-            drop(Box::from_raw(self.meta));
-            drop(Box::from_raw(self.world));
-        }
+        let (meta, world) = (self.meta as usize, self.world as usize);
+        let _ = catch_unwind(move || unsafe {
+            drop(Box::from_raw(meta as *mut MetaTable<dyn Probe>));
+            drop(Box::from_raw(world as *mut World));
+        });
     }
 }
 
@@ -629,6 +630,9 @@ impl Driver {
             with_ty!(ci, T => meta.register::<T>());
         }
         Driver { world: Box::into_raw(Box::new(World::empty())), table: BTreeMap::new(), tymap, dynmap, meta: Box::into_raw(Box::new(meta)), abort: None, ctor_state: 0x9E3779B97F4A7C15, last_ctor: 0 }
+    }
+    pub fn meta(&self) -> &'static MetaTable<dyn Probe> {
+        unsafe { &*self.meta }
     }
     pub fn seed_ctors(&mut self, seed: u64) {
         self.ctor_state = seed | 1;
@@ -738,10 +742,12 @@ impl Driver {
                         self.abort = Some(format!("cell ({},{}) is {} while the driver's own guards make it {}", ty, dy, b, expect));
                     }
                     c["b"] = json!(b);
-                    if quiescent {
-                        // the brief's probe: get_mut_raw(id).type_id()
-                        let raw = self.wm().get_mut_raw(id).map(|r| (*r).type_id());
-                        let via_raw = raw.and_then(conc_of_typeid);
+                    if quiescent && b == "free" {
+                        // the brief's probe: get_mut_raw(id).type_id()  (AtomicRefCell::get_mut asserts
+                        // an unborrowed cell in debug builds: under catch_unwind like every library call)
+                        let w = self.wm();
+                        let raw = catch_unwind(AssertUnwindSafe(move || w.get_mut_raw(id).map(|r| (*r).type_id())));
+                        let via_raw = raw.ok().flatten().and_then(conc_of_typeid);
                         if via_raw != seen.map(|s| s.0) {
                             known = false;
                         }
@@ -764,7 +770,9 @@ impl Driver {
                     // no guard is live, so the `&mut World` view is available too: it is the map's
                     // content proper.  A value that only the shared-reference view hides is reported
                     // as stored (the calls that cannot see it will show up as outcomes)
-                    if let Some(s) = self.wm().get_mut_raw(id).and_then(|r| read_dyn(&*r)) {
+                    let w = self.wm();
+                    let raw = catch_unwind(AssertUnwindSafe(move || w.get_mut_raw(id).and_then(|r| read_dyn(&*r))));
+                    if let Some(s) = raw.ok().flatten() {
                         c["here"] = json!(true);
                         c["tid"] = json!(self.abs(s.0));
                         c["payload"] = json!(s.1);
@@ -1121,6 +1129,10 @@ impl<X: Member> MemberOrUnit for X {
 
 /// one of the six shared-reference fetch paths with a MATCHING type argument (multi-thread mode)
 pub fn thread_fetch(w: &'static World, op: &str, ci: usize, id: ResourceId) -> Option<Box<dyn AnyGuard>> {
+    if op == "sd_read" {
+        // Read<T> (needs T: Default for its setup handler, hence not the Box type)
+        return with_ty4!(ci, R => Some(Box::new(w.system_data::<Read<'static, R>>()) as Box<dyn AnyGuard>));
+    }
     with_ty!(ci, R => match op {
         "fetch" => Some(Box::new(w.fetch::<R>()) as Box<dyn AnyGuard>),
         "try_fetch" => w.try_fetch::<R>().map(|g| Box::new(g) as Box<dyn AnyGuard>),
